@@ -1,5 +1,6 @@
 --------------------------------- MODULE MC_Bindings ---------------------------------
-(* Bounded instance of Bindings: every history of <= MaxCalls API calls on two tokenizers (modes C, A)     *)
+(* Bounded instance of Bindings: every history of <= MaxCalls API calls on two tokenizers (mode C with all    *)
+(* fields, mode A with the field request {surface})                                                          *)
 (* over a fabricated oracle: text 1 analyses to two morphemes (the first has two A-units in mode C),       *)
 (* text 9 is refused (too long); one lookup key.  ModeIsStable and OneTarget are checked on all of them;   *)
 (* every complete history is emitted and executed on the real extension with real texts (pydrv).           *)
@@ -12,16 +13,20 @@ mvars == <<bvars, hist, nlists, nh>>
 
 T1 == <<1>>
 TL == <<9>>
-Unit(t, m, i, k) == [id |-> <<t, m, i, k>>, splits |-> <<<<>>, <<>>, <<>>>>]
-Morph(t, m, i) == [id |-> <<t, m, i>>, splits |-> <<IF m = 2 /\ i = 1 THEN <<Unit(t, m, i, 1), Unit(t, m, i, 2)>> ELSE <<>>, <<>>, <<>>>>]
-Answer(t, m) == IF t = TL THEN [res |-> "err", ms |-> <<>>]
-                ELSE [res |-> "ok", ms |-> IF m = 2 THEN <<Morph(t, m, 1), Morph(t, m, 2)>> ELSE <<Morph(t, m, 1), Morph(t, m, 2), Morph(t, m, 3)>>]
+\* the restricted field request of tokenizer 1 (its mode A adds the A units); what is read depends on the request
+F1 == {"surface", "split_a"}
+Tag(f) == IF f = AllFields THEN "all" ELSE "restricted"
+Unit(t, m, i, k, f) == [id |-> <<t, m, i, k, Tag(f)>>, splits |-> <<<<>>, <<>>, <<>>>>]
+Morph(t, m, i, f) == [id |-> <<t, m, i, Tag(f)>>, splits |-> <<IF m = 2 /\ i = 1 THEN <<Unit(t, m, i, 1, f), Unit(t, m, i, 2, f)>> ELSE <<>>, <<>>, <<>>>>]
+Answer(t, m, f) == IF t = TL THEN [res |-> "err", ms |-> <<>>]
+                   ELSE [res |-> "ok", ms |-> IF m = 2 THEN <<Morph(t, m, 1, f), Morph(t, m, 2, f)>> ELSE <<Morph(t, m, 1, f), Morph(t, m, 2, f), Morph(t, m, 3, f)>>]
 
-Oracle == [k \in {T1, TL} \X {0, 1, 2} \X {AllFields} |-> Answer(k[1], k[2])]
-LookupOracle == [k \in {T1} |-> [res |-> "ok", ms |-> <<Morph(T1, 7, 1)>>]]
+Oracle == [k \in {T1, TL} \X {0, 1, 2} \X {AllFields, F1} |-> Answer(k[1], k[2], k[3])]
+\* a looked-up entry is read with all fields and has A units (like a tokenized compound)
+LookupOracle == [k \in {T1} |-> [res |-> "ok", ms |-> <<[id |-> <<T1, 7, 1, "all">>, splits |-> <<<<Unit(T1, 7, 1, 1, AllFields), Unit(T1, 7, 1, 2, AllFields)>>, <<>>, <<>>>>]>>]]
 
 MInit == /\ libTok = Oracle /\ libLookup = LookupOracle
-         /\ tks = (0 :> [mode |-> 2, fields |-> AllFields, proj |-> "surface"]) @@ (1 :> [mode |-> 0, fields |-> AllFields, proj |-> "surface"])
+         /\ tks = (0 :> [mode |-> 2, fields |-> AllFields, proj |-> "surface"]) @@ (1 :> [mode |-> 0, fields |-> F1, proj |-> "surface"])
          /\ lists = Fn0 /\ handles = Fn0 /\ nextInp = 1
          /\ hist = <<>> /\ nlists = 0 /\ nh = 0
 
